@@ -785,9 +785,12 @@ def poll_shape(repo):
         return e in names
     def run(Rval, oracle):
         ev = []; env = {}; oi = [0]
+        def opnames():
+            # the struct fields holding the stored operation, and every local they were moved into (`let x = self.f_r.take()`)
+            return ('f_r', 'f_m') + tuple(k for k, v in env.items() if v == ('op',))
         def is_attempt_call(e):
-            # <stored fn>(self.iter, ..): a call whose callee mentions f_r / f_m and whose first argument is self.iter
-            return e[0] == 'call' and mentions(e[1], ('f_r', 'f_m')) and e[2] and mentions(e[2][0], ('iter',))
+            # <stored fn>(self.iter, ..): a call whose callee mentions the stored operation and whose first argument is self.iter
+            return e[0] == 'call' and mentions(e[1], opnames()) and e[2] and mentions(e[2][0], ('iter',))
         def val(e):
             e0 = e
             while e[0] == 'paren': e = e[1]
@@ -798,6 +801,7 @@ def poll_shape(repo):
                 if oi[0] >= len(oracle): raise TErr('poll: more attempts than the analysis allows')
                 ok = oracle[oi[0]]; oi[0] += 1; ev.append('PAttempt'); return ('attempt', ok)
             if e[0] == 'mcall' and e[2] == 'ok_or': return val(e[1])
+            if e[0] == 'mcall' and e[2] == 'take' and e[1][0] == 'field' and e[1][2] in ('f_r', 'f_m'): return ('op',)
             if e[0] == 'mcall' and e[2] == 'register_waker':
                 ev.append('PRegister'); return None
             if e[0] == 'if':
@@ -812,9 +816,8 @@ def poll_shape(repo):
                 raise TErr('poll: match without a matching arm')
             if e[0] == 'unsafe': return blk(e[1])
             # anything else must not hide an attempt or a registration
-            if mentions(e, ('register_waker',)) or (mentions(e, ('f_r', 'f_m')) and mentions(e, ('iter',)) and e[0] not in ('mcall', 'path', 'field')):
+            if mentions(e, ('register_waker',)) or (mentions(e, opnames()) and mentions(e, ('iter',)) and e[0] not in ('mcall', 'path', 'field')):
                 raise TErr('poll: attempt / registration in an unexpected position')
-            if e[0] == 'mcall' and mentions(e[1], ('f_r', 'f_m')) and e[2] in ('take', 'as_ref', 'unwrap'): return None
             return None
         def blk(stmts):
             r = None
@@ -863,6 +866,65 @@ def poll_shape(repo):
         problems.append(f'iterators/async_iterators/mod.rs::poll: {ex}')
     return shapes, problems
 
+# ------------------------------------------------------------------ the async methods: which synchronous method each future attempts
+ASYNC_FILES = ['iterators/async_iterators/mod.rs', 'iterators/async_iterators/prod_iter.rs', 'iterators/async_iterators/cons_iter.rs',
+               'iterators/async_iterators/work_iter.rs']
+def async_table(repo):
+    """every `pub fn NAME(..) -> MRBFuture<..>`: its inner `fn f(s, payload)` must be exactly `s.inner_mut().NAME(<the payload, dereferenced>)`
+    (optionally inside `unsafe {}`), and the future it builds must hold `self`, the method's own argument as payload and `f` in the slot
+    (by reference / by value) its last type parameter announces"""
+    rows = []; problems = []
+    for f in ASYNC_FILES:
+        try: txt = strip_comments(open(os.path.join(repo, 'src', f)).read())
+        except OSError: continue
+        for m in re.finditer(r'pub\s+(?:unsafe\s+)?fn\s+(\w+)\s*(?:<[^>]*>)?\s*\(([^)]*)\)\s*->\s*MRBFuture\s*<([^{]*?)>\s*(?:where[^{]*)?\{', txt):
+            name, params, targs = m.group(1), m.group(2), m.group(3)
+            i = m.end() - 1; d = 0; j = i
+            while True:
+                if txt[j] == '{': d += 1
+                elif txt[j] == '}':
+                    d -= 1
+                    if d == 0: break
+                j += 1
+            body = txt[i + 1:j]
+            ok = True; why = ''
+            try:
+                arg = [q.split(':')[0].strip() for q in params.split(',') if ':' in q]           # the method's own argument (at most one)
+                byref = targs.strip().rstrip(',').split(',')[-1].strip() == 'true'
+                fm = re.search(r'\bfn\s+(\w+)\b', body)
+                if not fm: raise TErr('no inner fn')
+                item = P(lex(find_fn(body, fm.group(1)))).fn_item()
+                fparams = [pn for pn, _ in item[2]]
+                b = item[4]
+                if len(b) != 1 or b[0][0] != 'tail': raise TErr('inner fn is not a single expression')
+                e = b[0][1]
+                while e[0] in ('paren', 'unsafe'):
+                    if e[0] == 'paren': e = e[1]
+                    else:
+                        if len(e[1]) != 1 or e[1][0][0] != 'tail': raise TErr('unsafe block with more than the call')
+                        e = e[1][0][1]
+                if not (e[0] == 'mcall' and e[2] == name): raise TErr(f'attempts `{e[2] if e[0] == "mcall" else e[0]}` instead of `{name}`')
+                r = e[1]
+                if not (r[0] == 'mcall' and r[2] == 'inner_mut' and not r[3] and r[1] == ('path', [fparams[0]])): raise TErr('not called on s.inner_mut()')
+                pay = fparams[1] if len(fparams) > 1 else None
+                for a in e[3]:
+                    while a[0] in ('paren', 'deref', 'ref'): a = a[1]
+                    if a != ('path', [pay]): raise TErr('passes something else than its payload')
+                if len(e[3]) != len(arg): raise TErr('payload / argument mismatch')
+                lit = re.search(r'MRBFuture\s*\{([^}]*)\}', body)
+                if not lit: raise TErr('no MRBFuture literal')
+                fields = {k.strip(): v.strip() for k, v in (x.split(':', 1) for x in lit.group(1).split(',') if ':' in x)}
+                want_p = 'Some(' + (arg[0] if arg else '()') + ')'
+                if fields.get('iter') != 'self' or fields.get('p', '').replace(' ', '') != want_p.replace(' ', ''): raise TErr('future does not hold self and the argument')
+                slot, other = ('f_r', 'f_m') if byref else ('f_m', 'f_r')
+                if fields.get(slot) != f'Some({fm.group(1)})' or fields.get(other) != 'None': raise TErr('operation stored in the wrong slot')
+            except (TErr, ValueError, IndexError, KeyError) as ex:
+                ok = False; why = str(ex)
+            rows.append((f, name, ok))
+            if not ok: problems.append(f'{f}::{name}: {why}')
+    if len(rows) < 19: problems.append(f'only {len(rows)} async methods found')
+    return rows, problems
+
 def main(repo, outdir):
     defs, problems = translate(repo)
     lines = ['(* GENERATED by tools/data_translate.py from /repo/src on every run - do not edit *)',
@@ -881,15 +943,20 @@ def main(repo, outdir):
     os.makedirs(outdir, exist_ok=True)
     open(os.path.join(outdir, 'DataFns.v'), 'w').write('\n'.join(lines) + '\n')
     sh, shp = poll_shape(repo)
+    at, atp = async_table(repo)
     b = lambda x: 'true' if x else 'false'
     pl = ['(* GENERATED by tools/data_translate.py from /repo/src on every run - do not edit *)',
           'From Coq Require Import List Bool.', 'Import ListNotations.', 'Require Import MRB.Model.PollShape.', '',
           '(* MRBFuture::poll executed on abstract values: (outcomes of the attempts, events in order, how the poll ends) *)',
           'Definition poll_shape : list (list bool * list pev * pend) := [' +
           '; '.join('([' + '; '.join(b(o) for o in orc) + '], [' + '; '.join(evs) + '], ' + end + ')' for orc, evs, end in sh) + '].',
-          f'Definition poll_clean : bool := {b(not shp)}.'] + [f'(* PROBLEM: {x} *)' for x in shp]
+          f'Definition poll_clean : bool := {b(not shp)}.'] + [f'(* PROBLEM: {x} *)' for x in shp] + [
+          '(* every async method: the future attempts exactly the synchronous method of the same name on the wrapped iterator, with its own payload: (file, method, does it?) *)',
+          'Require Import String. Open Scope string_scope.',
+          'Definition async_methods : list (string * string * bool) := [' + '; '.join(f'("{f}", "{n}", {b(ok)})' for f, n, ok in at) + '].',
+          f'Definition async_clean : bool := {b(not atp)}.'] + [f'(* PROBLEM: {x} *)' for x in atp]
     open(os.path.join(outdir, 'PollGen.v'), 'w').write('\n'.join(pl) + '\n')
-    problems = problems + shp
+    problems = problems + shp + atp
     # the same functions as compiled with --features vmem (next_chunk*, _push_slice, _extract_slice have their own bodies there)
     vdefs, vproblems = translate(repo, vmem=True)
     vlines = ['(* GENERATED by tools/data_translate.py from /repo/src on every run (the bodies compiled with feature vmem) - do not edit *)',
